@@ -1,5 +1,5 @@
 //! C17 - type mismatches are rejected; a failed bind leaves the request intact. Engine E-ENUM.
-//! Legs (selected with `--leg`): `matrix`, `rollback`.
+//! Legs (selected with `--leg`): `matrix`, `rollback`, `rows`.
 use vcore::Report;
 
 fn main() {
@@ -14,6 +14,7 @@ fn main() {
     match leg.as_str() {
         "matrix" => h_val::c17::run_matrix(&r),
         "rollback" => h_val::c17::run_rollback(&r),
+        "rows" => h_val::c17::run_rows(&r),
         other => vcore::machinery_error(&format!("unknown leg {other}")),
     }
     r.finish();
